@@ -66,6 +66,8 @@ func c14RenameP(tc *scCase, pre string) []scItem {
 		case "gfunc":
 			it.N = nm(it.N, it.Nb)
 			it.P = c14NameP(pre, it.Pid)
+		case "guse":
+			it.U = nm(it.U, 0)
 		case "iassign":
 			it.T = nm(it.T, it.Tb)
 			it.U = nm(it.U, it.B)
